@@ -13,7 +13,8 @@ Environments: `k,v;k,v` (value `~` = None); the optional mapping itself may be `
 namespace DriverMk
 open Py Mk
 
-def splitNE (s : String) (sep : String) : List String := if s.isEmpty then [] else s.splitOn sep
+/-- an empty list is sent as `_` (or the empty string) -/
+def splitNE (s : String) (sep : String) : List String := if s.isEmpty || s == "_" then [] else s.splitOn sep
 
 def allSome {α} : List (Option α) → Option (List α)
   | [] => some []
@@ -37,11 +38,12 @@ def decEnvL (s : String) : Option Env :=
 def decEnv (s : String) : Option (Option Env) :=
   if s == "~" then some none else (decEnvL s).map some
 
-def decAns (s : String) : Option SpecAns :=
-  if s == "n" then some .notSpec else if s == "v" then some .invalidVersion
-  else if s == "1" then some (.val true) else if s == "0" then some (.val false) else none
+/-- `n` (InvalidSpecifier) and `v` (InvalidVersion) are both "no specifier answer" -/
+def decAns (s : String) : Option (Option Bool) :=
+  if s == "n" then some none else if s == "v" then some none
+  else if s == "1" then some (some true) else if s == "0" then some (some false) else none
 
-def decSpecTab (s : String) : Option (List ((Str × Str × Str) × SpecAns)) :=
+def decSpecTab (s : String) : Option (List ((Str × Str × Str) × Option Bool)) :=
   allSome <| (splitNE s ";").map fun e => match e.splitOn "," with
     | [a, b, c, d] => match decS a, decS b, decS c, decAns d with
       | some o, some r, some l, some x => some ((o, r, l), x)
@@ -50,18 +52,19 @@ def decSpecTab (s : String) : Option (List ((Str × Str × Str) × SpecAns)) :=
 
 def missChar : Nat := 0x110000
 
-def extOf (canon : List (Str × Str)) (spec : List ((Str × Str × Str) × SpecAns)) : Ext where
+def extOf (canon : List (Str × Str)) (spec : List ((Str × Str × Str) × Option Bool)) : Ext where
   canonName s := (canon.lookup s).getD [missChar]
-  specMatch op r l := (spec.lookup (op, r, l)).getD .notSpec
+  specMatch op r l := (spec.lookup (op, r, l)).getD none
 
 def rawName : RawExc → String
   | .syntaxError => "SyntaxError" | .unicodeEncodeError => "UnicodeEncodeError" | .keyError => "KeyError"
-  | .invalidVersion => "InvalidVersion" | .attributeError => "AttributeError" | .typeError => "TypeError"
+  | .attributeError => "AttributeError" | .typeError => "TypeError"
   | .assertionError => "AssertionError"
 
 def encErr : Err → String
   | .invalidMarker => "err InvalidMarker"
   | .undefinedComparison => "err UndefinedComparison"
+  | .undefinedEnvironmentName => "err UndefinedEnvironmentName"
   | .raw e => "raw " ++ rawName e
   | .fuel => "raw Fuel"
 
@@ -142,7 +145,7 @@ def rawOperands (env : Env) (a : Atom) : Option (Str × Str × Str) :=
     | .ok v => some (l, v, a.rhs.value)
     | .error _ => none
 
-def evalCovered (X : Ext) (canon : List (Str × Str)) (spec : List ((Str × Str × Str) × SpecAns))
+def evalCovered (X : Ext) (canon : List (Str × Str)) (spec : List ((Str × Str × Str) × Option Bool))
     (env : Env) (m : List M) : Bool :=
   (atomsL m).all fun a =>
     match rawOperands env a with
